@@ -49,7 +49,9 @@ RULE = ("all 125 order triples (each order 0..4) x both back-ends enumerated on 
         "Cartesian / spherical / mixed, with and without a random rectangular transform (entries k/4); centres k/16, "
         "exponents log-uniform 0.02..cap(l) with 8-bit mantissas, coefficients k/8; 1-50 points = offsets m/2^j from a "
         "centre, always including a point exactly on a centre, one on an axis through it and one on a coordinate "
-        "plane through it; evaluate_basis cases for every l 0..6 in both coordinate types; unknown back-end names. "
+        "plane through it; evaluate_basis cases for every l 0..6 in both coordinate types; 8 (quick) / 80 (thorough) tight "
+        "shells (exponent within a factor 4 of the cap for l) centred 30-150 bohr from the origin, points within "
+        "2/sqrt(alpha) of the centre; unknown back-end names. "
         "A case is non-trivial when the exact result is not identically zero and (l>0 or K>1 or M>1 or total order>0 "
         "or more than one shell); distinct by the hash of the exact input; hp stream: 16 (quick) / 250 (thorough) "
         "single Cartesian shells l<=3 / l<=5, K<=3, M<=2, 3-4 points, order triples up to 4 (general) / 2 (direct), "
@@ -123,8 +125,11 @@ def gen_hp_cases(tier, seed):
         pts = gen_points(rng, [s], rng.randint(3, 4))
         if i % 4 == 3:
             pts = full_mantissa(rng, [s], pts)
-        out.append({"kind": "deriv", "hp": 1, "basis": [s.to_json()], "points": pts, "orders": o, "backend": bname,
-                    "transform": None})
+        c = {"kind": "deriv", "hp": 1, "basis": [s.to_json()], "points": pts, "orders": o, "backend": bname,
+             "transform": None}
+        if i >= n - 2:      # the last two: a tight shell far from the origin (see far_tight_case)
+            c = dict(far_tight_case(rng, i % 2, bname, o), hp=1)
+        out.append(c)
     return out
 
 
@@ -315,6 +320,24 @@ def full_mantissa(rng, basis, pts):
     return out
 
 
+def far_tight_case(rng, l, bname, orders, kmax=2):
+    """One tight shell (exponents within a factor 4 of the cap of published sets for that l) centred 30-150 bohr
+    (per axis) from the coordinate origin, full-mantissa coordinates; points on the centre and within 2/sqrt(alpha)
+    of it.  Translation-invariant formulas are insensitive to this; a Gaussian factor computed through absolute
+    coordinates (|r|^2 - 2 r.R + |R|^2) loses 6-9 digits here in double precision (and none in the hp replay)."""
+    import math
+    cap = float(lib.exp_cap(l))
+    s = gen_shell(rng, l=l, kmax=kmax, mmax=2, sph=False)
+    s.exps = [Fraction(math.exp(rng.uniform(math.log(cap / 4), math.log(cap)))) for _ in s.exps]
+    s.coord = [Fraction(rng.choice([-1, 1]) * rng.uniform(30, 150)) for _ in range(3)]
+    w = 2.0 / float(min(s.exps)) ** 0.5
+    pts = [[str(c) for c in s.coord]]
+    for _ in range(3):
+        pts.append([str(Fraction(float(c) + rng.uniform(-w, w))) for c in s.coord])
+    return {"kind": "deriv", "basis": [s.to_json()], "points": pts, "orders": list(orders), "backend": bname,
+            "transform": None}
+
+
 def gen_cases(tier, seed):
     rng = random.Random(7000003 * seed + 5)
     quick = tier == "quick"
@@ -371,6 +394,11 @@ def gen_cases(tier, seed):
                       "points": gen_points(rng, basis, 50 if i % 2 == 0 else rng.randint(20, 50)),
                       "orders": o, "backend": "general" if i % 4 != 2 else "direct",
                       "transform": gen_transform(rng, basis) if i % 2 else None})
+    # tight shells far from the origin (both back-ends, values and low derivatives)
+    for i in range(8 if quick else 80):
+        bname = ("general", "direct")[i % 2]
+        o = [0, 0, 0] if i % 4 < 2 else [rng.randint(0, 2) for _ in range(3)]
+        cases.append(far_tight_case(rng, rng.choice([0, 0, 1, 2]), bname, o))
     # unknown back-end names
     for name in ("Direct", "analytic"):
         basis = gen_basis(rng, 1, 1, kmax=2, mmax=1, lmax_rest=1, types="c")
